@@ -324,6 +324,8 @@ impl Model
 pub struct WOutcome
 {
     pub violations: Vec<String>,
+    /// the set of runs differed from the expected one (the part of the oracle that C01 / C06 also rely on)
+    pub run_set_mismatch: bool,
     pub classes: BTreeMap<String, u32>,
 }
 
@@ -332,7 +334,7 @@ fn is_trigger(op: &WOp) -> bool
     matches!(op, WOp::Mutate(_) | WOp::EntityEvent(_) | WOp::Insert(..) | WOp::RemoveComp(_) | WOp::Despawn(_) | WOp::ResMutate | WOp::Broadcast | WOp::Broadcast1 | WOp::WRun(_))
 }
 
-fn run_inner(case: &WCase, out: &mut WOutcome)
+fn run_inner(case: &WCase, out: &mut WOutcome, run_set_only: bool)
 {
     let n = case.n_entities.clamp(1, 4) as usize;
     let mut app = App::new();
@@ -561,6 +563,7 @@ fn run_inner(case: &WCase, out: &mut WOutcome)
             want.sort();
             if got != want
             {
+                out.run_set_mismatch = true;
                 out.violations.push(format!("step {si} {:?}: runs {:?}, expected {:?}", step.op, got, want));
             }
             for (r, e, before) in counters
@@ -603,7 +606,8 @@ fn run_inner(case: &WCase, out: &mut WOutcome)
                 out.violations.push(format!("step {si}: {} system commands exist, {n_sys} were created (a reactor system was despawned or duplicated)", verif_system_commands(world).len()));
             }
         }
-        if !out.violations.is_empty() { break; }
+        // as a side engine (run-set oracle only) a history goes on past findings that are C16's alone
+        if if run_set_only { out.run_set_mismatch } else { !out.violations.is_empty() } { break; }
     }
     let multi = (0..NE).any(|k| m.er[k].iter().filter(|x| !x.0.is_empty()).count() >= 2) || m.classes.get("C16:entity_added").copied().unwrap_or(0) >= 2;
     if multi && partial_removals >= 1 { m.hit("C16:two_entities_and_partial_removal"); }
@@ -629,10 +633,10 @@ fn norm(k: Key, n: u8) -> Key
     }
 }
 
-pub fn run_case(case: &WCase) -> WOutcome
+pub fn run_case(case: &WCase, run_set_only: bool) -> WOutcome
 {
-    let mut out = WOutcome{ violations: Vec::new(), classes: BTreeMap::new() };
-    let r = std::panic::catch_unwind(std::panic::AssertUnwindSafe(|| run_inner(case, &mut out)));
+    let mut out = WOutcome{ violations: Vec::new(), run_set_mismatch: false, classes: BTreeMap::new() };
+    let r = std::panic::catch_unwind(std::panic::AssertUnwindSafe(|| run_inner(case, &mut out, run_set_only)));
     if let Err(p) = r
     {
         let msg = if let Some(s) = p.downcast_ref::<&str>() { s.to_string() } else if let Some(s) = p.downcast_ref::<String>() { s.clone() } else { "panic".into() };
@@ -702,11 +706,20 @@ pub struct WrEngine
 
 impl WrEngine
 {
+    /// C16 reports everything; as the side engine of C01 / C06 only a wrong set of runs (a live registration skipped,
+    /// a removed trigger still scheduling, a neighbour no longer working) or a panic counts.
+    fn relevant(&self, out: &WOutcome) -> Vec<String>
+    {
+        if self.prop == "C16" { return out.violations.clone(); }
+        if out.run_set_mismatch { return out.violations.iter().filter(|m| m.contains(": runs [")).cloned().collect(); }
+        out.violations.iter().filter(|m| m.starts_with("panic: ")).cloned().collect()
+    }
+
     fn outcome(&self, case: &WCase) -> CaseOutcome
     {
-        let out = run_case(case);
+        let out = run_case(case, self.prop != "C16");
         let mut o = CaseOutcome::default();
-        o.violations = out.violations;
+        o.violations = self.relevant(&out);
         o.nontrivial = out.classes.contains_key("C16:two_entities_and_partial_removal");
         o.classes = out.classes.iter().map(|(k, v)| (k.clone(), *v)).collect();
         o.digest = json!({ "steps": case.steps.len() });
@@ -738,7 +751,7 @@ impl Engine for WrEngine
     fn shrink_json(&self, case: &Value) -> Value
     {
         let Ok(mut best) = serde_json::from_value::<WCase>(case.clone()) else { return case.clone() };
-        let fails = |c: &WCase| !run_case(c).violations.is_empty();
+        let fails = |c: &WCase| !self.relevant(&run_case(c, self.prop != "C16")).is_empty();
         loop
         {
             let mut progress = false;
